@@ -28,9 +28,12 @@ static long vf_fail_at = -1;      /* attempt index that fails (one shot) */
 static size_t vf_cap = (size_t)1 << 26;
 static int vf_refused = 0;        /* an attempt above the cap was refused */
 
+static int vf_pause = 0;          /* observation code (dumps) neither counts nor fails */
 static int vf_should_fail(size_t n)
 {
-	long k = vf_count++;
+	long k;
+	if (vf_pause) return 0;
+	k = vf_count++;
 	if (k == vf_fail_at) return 1;
 	if (n > vf_cap) { vf_refused = 1; return 1; }
 	return 0;
@@ -288,6 +291,8 @@ static void run_line(void)
 	int e = 0;
 	printf("%d %s ", lineno, op);
 	if (!strcmp(op, "strict")) { strict = 1; printf("0\n"); return; }
+	if (!strcmp(op, "epilogue")) { strict = 0; printf("0\n"); return; }
+	{ size_t ol = strlen(op); vf_pause = (ol > 4 && !strcmp(op + ol - 4, "dump")) || !strcmp(op, "tsdec") || !strcmp(op, "csdec") || !strcmp(op, "bytes"); }
 	if (!strcmp(op, "session")) { run_session(IN(1), ntok > 2 ? tok[2] : "*"); putchar('\n'); return; }
 	if (!strcmp(op, "tsdec")) { dec_ts(TS(1)); putchar('\n'); return; }
 	if (!strcmp(op, "csdec")) { dec_cs(CS(1)); putchar('\n'); return; }
@@ -642,7 +647,12 @@ int main(int argc, char** argv)
 						if (strict && is_status_op(tok[0]))
 						{   /* "<lineno> <op> <status>..." */
 							char* q = strchr(lb, ' '); q = q ? strchr(q + 1, ' ') : 0;
-							if (q && atoi(q + 1) != 0) { free(lb); fputs("# stopped after the first failing call\n", stdout); break; }
+							if (q && atoi(q + 1) != 0)
+							{   /* skip to the epilogue (observations of what was built before), if there is one */
+								free(lb); fputs("# stopped after the first failing call\n", stdout);
+								while (i + 1 < nl && strcmp(caselines[i + 1], "epilogue")) ++i;
+								continue;
+							}
 						}
 						free(lb);
 					}
